@@ -800,6 +800,18 @@ def _build(spec, dtype=np.int64, flatten=False):
         items = flat_mods(spec["prog"]) if flatten else spec["prog"]
         net = pm.Network(mk(items))
         net._all_nets = []
+    # the timing option selects a SECOND implementation of the dispatch loops in Network: it must be the same dispatch
+    tsel = spec.get("timing", (len(spec.get("ops") or []) + 3 * len(spec["sigs"])) % 4)
+    timing = {0: 1e9, 1: 1e9}.get(tsel, False)   # (a numeric threshold takes the same branch as True, without printing)
+
+    def set_timing(nw):
+        nw.print_timing = timing
+        for mm in nw.mods:
+            if isinstance(mm, pm.Network):
+                set_timing(mm)
+    set_timing(net)
+    for nk in net._all_nets:
+        nk.print_timing = timing
     return net, bases, sigs
 
 
@@ -827,14 +839,20 @@ def run_impl(spec, dtype=np.int64, flatten=False):
                "sigin": sorted(ids[id(s)] for s in net.sig_in), "sigout": sorted(ids[id(s)] for s in net.sig_out),
                "netsig": [[sorted(ids[id(s)] for s in nk.sig_in), sorted(ids[id(s)] for s in nk.sig_out)]
                           for nk in net._all_nets]}
+        import contextlib, io
+        def silent(fn):
+            def g():
+                with contextlib.redirect_stdout(io.StringIO()):
+                    return fn()
+            return g
         for op in spec["ops"]:
             name = op[0]
             if name == "resp":
-                r = call_impl(net.response)
+                r = call_impl(silent(net.response))
             elif name == "sens":
-                r = call_impl(net.sensitivity)
+                r = call_impl(silent(net.sensitivity))
             elif name == "reset":
-                r = call_impl(net.reset)
+                r = call_impl(silent(net.reset))
             elif name == "seed":
                 def f(sid=op[1], v=op[2]):
                     sigs[sid].sensitivity = None if v is None else np.array(v, dtype=dtype).reshape(sig_shape(spec, sid))
